@@ -170,7 +170,7 @@ def from_generic(o):
         return ("bn", _plain(o._identifier))
     if isinstance(o, gs.Literal):
         return ("lit", _plain(o._lex), _plain(o._langtag or ""), _plain(o._datatype or ""))
-    if o is gs.DefaultGraph:
+    if o is gs.DefaultGraph or isinstance(o, type(gs.DefaultGraph)):     # (a deep copy of the singleton is still the default graph)
         return ("dg",)
     if isinstance(o, gs.Triple):
         return ("qt", from_generic(o.s), from_generic(o.p), from_generic(o.o))
